@@ -30,7 +30,7 @@ BUDGET = {"quick": 480, "thorough": 12000}
 SHRINK_SECONDS = {"quick": 40, "thorough": 200}
 RULE = (
     "case = (H_0 spectrum with degeneracies, explicit block sizes, Hermitian / biorthogonal, real / complex, dense / sparse, "
-    "perturbations, selection on explicit blocks, solver in {direct, direct+eigenvalue_atol, KPM, KPM+auxiliary}). "
+    "perturbations, selection on explicit blocks, solver in {direct, direct+eigenvalue_atol, KPM, KPM+auxiliary}, tight / reversed explicit levels, real-dtype H_0 with complex-conjugate eigenvalue pairs, perturbation strengths 1 and 2^-10). "
     "Non-trivial = (complex data or a degenerate explicit level or two explicit blocks or a biorthogonal basis) and values "
     "of total order >= 2 were compared."
 )
